@@ -214,6 +214,8 @@ def cat_bad_attributes(rng):
         '[text_output: "Maybe"]',
         "[unknown_attr: 1]",
         "[byte_order: LITTLE]",
+        "[expected_back_ends: 5]", '[(cpp) enum_case: 7]', '[(java) enum_case: 7]', '[(cpp) enum_case: "snake_case"]', "[text_output: 1]",
+        "[requires: 1 + 1]", "[is_signed: 1 == 1]", '[maximum_bits: "8"]', "[maximum_bits: 4 + 4]", "[fixed_size_in_bits: true]",
     ]
     lines = [_hdr(rng), f"struct {camel(rng)}:"]
     for i in range(rng.randint(2, 5)):
@@ -222,6 +224,8 @@ def cat_bad_attributes(rng):
     lines.append(f"enum {camel(rng)}:\n  {rng.choice(opts)}\n  AB = 1")
     if rng.random() < 0.3:
         lines.insert(1, rng.choice(opts))
+    if rng.random() < 0.3:
+        lines.insert(0, rng.choice(['[expected_back_ends: "java, cpp"]', "[expected_back_ends: 5]", '[expected_back_ends: "java"]']))
     return {"m.emb": "\n".join(lines) + "\n"}, "m.emb", ["attribute_error"]
 
 
@@ -253,7 +257,8 @@ def cat_layout_errors(rng):
         "  0 [+$max_size_in_bytes]  UInt:8[]  w",
         "  0 [+-1]  UInt  neg\n  let neg_plus = neg + 1", "  0 [+4]  bits:\n    0 [+0]  UInt  zero_bits\n    1 [+-2]  Int  neg_bits",
         "  0 [+8]  bits:\n    0 [+65]  UInt  wide_bits\n    1 [+18446744073709551616]  Int  huge_bits",
-        "  0 [+18446744073709551615]  Bcd  huge\n  let huge_plus = huge + 1", "  0 [+600]  Int  big\n  if big > 3:\n    600 [+1]  UInt  after_big",
+        "  0 [+18446744073709551615]  Bcd  huge\n  let huge_plus = huge + 1", "  0 [+2]  UInt:8[]  na\n  2 [+$next]  UInt  nb\n  $next [+1]  UInt  nc",
+        "  0 [+1]  UInt  n1\n  $next [+$next + 1]  UInt:8[]  n2\n  $next [+1]  UInt  n3\n  $next [+1]  UInt  n4", "  0 [+600]  Int  big\n  if big > 3:\n    600 [+1]  UInt  after_big",
     ]
     lines = [_hdr(rng), f"struct {camel(rng)}:"]
     chosen = rng.sample(cands, rng.randint(1, 4))
@@ -375,10 +380,52 @@ def cat_cross_file_notes(rng):
     return {"lib/defs.emb": lib, "m.emb": "\n".join(lines) + "\n"}, "m.emb", ["cross_file_notes", "error_in_imported_file"]
 
 
+def cat_back_end_attributes(rng):
+    """A module the front end accepts whose back-end attributes are right, wrong, or meant for another
+    back end: these diagnostics come from the C++ back end (or from nobody)."""
+    used = []
+    ns = rng.choice(['"a::b"', '"x"', '"::a::b"', '"a::b::"'] * 3 + ['""', '"::"', '"a::::b"', '"9a"', '"a b"', '"class"', '"a::int"', '"a.b"', "7", "true"])
+    ebe = rng.choice(["", "", '[expected_back_ends: "cpp"]', '[expected_back_ends: "java, cpp"]', '[expected_back_ends: "cpp, java, rust"]', '[expected_back_ends: "java"]'])
+    cases = ['"kCamelCase"', '"SHOUTY_CASE"', '"SHOUTY_CASE, kCamelCase"', '"kCamelCase,SHOUTY_CASE"']
+    bad_cases = ['"snake_case"', '""', '"kCamelCase,"', '",kCamelCase"', '"kCamelCase, kCamelCase"', '"kCamelCase,, SHOUTY_CASE"', "7", "true", '"kcamelcase"']
+    def case():
+        return rng.choice(cases * 3 + bad_cases)
+    lines = []
+    if ebe:
+        lines.append(ebe)
+    lines.append('[$default byte_order: "LittleEndian"]')
+    lines.append(f"[(cpp) namespace: {ns}]")
+    if rng.random() < 0.3:
+        lines.append(f"[(cpp) $default enum_case: {case()}]")
+    if "java" in ebe and rng.random() < 0.7:
+        lines.append(rng.choice(['[(java) package: "x.y"]', "[(java) package: 3]", '[(java) namespace: ""]', "[(java) namespace: 5]", '[(java) $default enum_case: "weird"]']))
+    if "java" not in ebe and rng.random() < 0.15:
+        lines.append('[(java) package: "x.y"]')  # not among the expected back ends
+    e = camel(rng, used)
+    lines.append(f"enum {e}:")
+    if rng.random() < 0.5:
+        lines.append(f"  [(cpp) $default enum_case: {case()}]")
+    if "java" in ebe and rng.random() < 0.4:
+        lines.append(rng.choice(['  [(java) $default enum_case: "anything"]', "  [(java) $default enum_case: 7]", '  [(java) $default enum_case: ""]']))
+    for i in range(rng.randint(1, 3)):
+        lines.append(f"  {shouty(rng, used)} = {i}")
+        if rng.random() < 0.3:
+            lines.append(f"    [(cpp) enum_case: {case()}]")
+        if "java" in ebe and rng.random() < 0.3:
+            lines.append(rng.choice(['    [(java) enum_case: "anything"]', "    [(java) enum_case: 7]", '    [(java) enum_case: ""]']))
+    s_ = camel(rng, used)
+    lines.append(f"struct {s_}:")
+    if rng.random() < 0.2:
+        lines.append(f"  [(cpp) $default enum_case: {case()}]")
+    lines.append(f"  0 [+1]  {e}  kind")
+    lines.append(f"  1 [+2]  UInt  {rng.choice(['value'] * 8 + ['class', 'int', 'namespace'])}")
+    return {"m.emb": "\n".join(lines) + "\n"}, "m.emb", ["back_end_attributes"]
+
+
 CATALOGUE = [
     cat_multi_cycle, cat_virtual_cycles, cat_import_cycles, cat_ambiguous, cat_duplicates,
     cat_bad_attributes, cat_type_errors, cat_layout_errors, cat_unknown_import,
-    cat_error_in_import, cat_prelude_clash, valid_with_anonymous_bits, valid_project, cat_cross_file_notes,
+    cat_error_in_import, cat_prelude_clash, valid_with_anonymous_bits, valid_project, cat_cross_file_notes, cat_back_end_attributes,
 ]
 
 
